@@ -3,6 +3,8 @@
 package verifhook
 
 import (
+	"bytes"
+	"text/template"
 	"time"
 
 	"github.com/linkedin/Burrow/core/internal/notifier"
@@ -31,7 +33,9 @@ func (n *Notifier) AddGroup(cluster, group string, lastEvalAgo time.Duration) {
 func (n *Notifier) DeleteGroup(cluster, group string) { n.c.VerifDeleteGroup(cluster, group) }
 
 // CheckAndSend is checkAndSendResponseToModules, synchronously.
-func (n *Notifier) CheckAndSend(response *protocol.ConsumerGroupStatus) { n.c.VerifCheckAndSend(response) }
+func (n *Notifier) CheckAndSend(response *protocol.ConsumerGroupStatus) {
+	n.c.VerifCheckAndSend(response)
+}
 
 // ShiftTimes moves stored instants back by d.
 func (n *Notifier) ShiftTimes(d time.Duration) { n.c.VerifShiftTimes(d) }
@@ -44,3 +48,16 @@ func (n *Notifier) StopEvalLoops() { n.c.VerifStopEvalLoops() }
 
 // RunEvaluatorRequests runs sendEvaluatorRequests for d.
 func (n *Notifier) RunEvaluatorRequests(d time.Duration) { n.c.VerifRunEvaluatorRequests(d) }
+
+// TemplateParseFunc is the template parsing function the notifier coordinator's Configure installs.
+func TemplateParseFunc(app *protocol.ApplicationContext) func(filenames ...string) (*template.Template, error) {
+	return notifier.VerifTemplateParseFunc(app)
+}
+
+// ExecuteTemplate is the notifier's executeTemplate.
+func ExecuteTemplate(tmpl *template.Template, extras map[string]string, status *protocol.ConsumerGroupStatus, eventID string, startTime time.Time) (*bytes.Buffer, error) {
+	return notifier.VerifExecuteTemplate(tmpl, extras, status, eventID, startTime)
+}
+
+// HelperFunctionMap is the function map offered to notification templates.
+func HelperFunctionMap() template.FuncMap { return notifier.VerifHelperFunctionMap() }
